@@ -34,6 +34,9 @@ async def expect_async(expecter, timeout=None):
     else:
         pattern_waiter, transport = expecter.spawn.async_pw_transport
         pattern_waiter.set_expecter(expecter)
+        if transport.is_closing():
+            # EOF arrived while no call was waiting for it
+            return expecter.eof()
         transport.resume_reading()
     try:
         return await asyncio.wait_for(pattern_waiter.fut, timeout)
@@ -108,8 +111,13 @@ class PatternWaiter(asyncio.Protocol):
     def eof_received(self):
         # N.B. If this gets called, async will close the pipe (the spawn object)
         # for us
+        self.expecter.spawn.flag_eof = True
+        if self.fut.done():
+            # Nobody is waiting (the previous call already returned, or its
+            # timeout is firing): keep the pending text where it is; the
+            # next call reports EOF.
+            return
         try:
-            self.expecter.spawn.flag_eof = True
             index = self.expecter.eof()
         except EOF as exc:
             self.error(exc)
